@@ -40,8 +40,9 @@ ASSUMPTIONS = [
     "as-found code with a negative prefix length w needs about 2^(-w)/8 bytes of memory for 2 ** (32 - w); the as-found model assumes it is available (tested only for w >= -2000 and for the OverflowError threshold)",
     "the ROUTES message is sent in one frame, as the code does",
     "Windows (`route PRINT -4`): the property text names the iproute2 and netstat formats only; for the Windows parser the oracle asks that "
-    "no line ends the server, that every advertised network is the canonical network of a printed On-link row (in order) and that the "
-    "advertisement is delivered - WHICH rows are advertised (On-link only, no host routes, no 127./0./224./169.254.) is compared with the model as coded",
+    "no line ends the server, that every advertised network is the canonical network of a printed On-link row (in order), that every On-link row "
+    "which is not a host route and does not start with 127./0./224./169.254. is advertised, and that the advertisement is delivered; the rows "
+    "the code leaves out on purpose (routes through a gateway, host routes, multicast, link-local) are compared with the model as coded only",
     "host routes printed by iproute2 without '/len' (e.g. '10.1.2.3 dev eth0') are not routes for _route_iproute: it requires a '/' in the first token (as coded; reported, not counted as a violation)",
 ]
 
@@ -630,6 +631,71 @@ def gen_table(rng, fmt, n, junk_rate=0.0, hostbits=0.5, allow_special=True):
 
 ctx_abbrev = [0]
 
+WIN_SKIP = ("127.", "0.", "224.", "169.254.")
+WIN_HEAD = [b"===========================================================================\r\n", b"Interface List\r\n",
+            b" 12...00 1c 42 aa bb cc ......Intel(R) PRO/1000 MT Network Connection\r\n",
+            b"  1...........................Software Loopback Interface 1\r\n",
+            b"===========================================================================\r\n", b"\r\n", b"IPv4 Route Table\r\n",
+            b"===========================================================================\r\n", b"Active Routes:\r\n",
+            b"Network Destination        Netmask          Gateway       Interface  Metric\r\n"]
+WIN_TAIL = [b"===========================================================================\r\n", b"Persistent Routes:\r\n"]
+
+
+def win_row(dest, mask, gw, iface, metric, eol=b"\r\n"):
+    return ("%17s %16s %16s %16s %6d" % (dest, mask, gw, iface, metric)).encode() + eol
+
+
+def gen_windows_table(rng, n, junk_rate=0.0, hostbits=0.3, allow_special=True):
+    """`route PRINT -4` text.  Returns (text, expected kept routes as coded, junk?, canonical networks of ALL On-link rows in order)"""
+    eol = rng.choice([b"\r\n", b"\r\n", b"\n"])
+    out = [ln.replace(b"\r\n", eol) for ln in WIN_HEAD] if rng.random() < 0.9 else []
+    exp, onlink = [], []
+    has_junk = False
+    iface = quad(rand_addr(rng) | (1 << 29))
+    for _ in range(n):
+        while junk_rate and rng.random() < junk_rate:
+            j = junk_line(rng)
+            if rng.random() < 0.3:
+                j = j.rstrip(b"\n") + b" On-link " + j
+            out.append(j)
+            has_junk = True
+        ip = rand_addr(rng)
+        w = rng.choice([0, 1, 4, 7, 8, 9, 15, 16, 17, 23, 24, 25, 30, 31, 32, 32, rng.randint(0, 32)])
+        k = rng.random()
+        if allow_special and k < 0.12:
+            ip, w = rng.choice([(0x7f000000, 8), (0x7f000001, 32), (0x7fffffff, 32), (0xe0000000, 4), (0xffffffff, 32),
+                                (0xa9fe0000, 16), (0xa9fe0101, 32), (0x00000000, 0), (0xa9ff0000, 16), (0xe1000000, 8), (0x7e000000, 8)])
+        elif not allow_special and ((ip >> 24) in (0, 127, 224) or (ip >> 16) == 0xa9fe):
+            ip = (ip & 0x00ffffff) | (10 << 24)
+        if rng.random() >= hostbits and w < 32:
+            ip &= ~((1 << (32 - w)) - 1)
+        mask = (0xffffffff << (32 - w)) & 0xffffffff
+        if 0.12 <= k < 0.3:          # a route through a gateway: not On-link, never advertised
+            out.append(win_row(quad(ip), quad(mask), quad(rand_addr(rng)), iface, rng.randint(1, 400), eol))
+            continue
+        out.append(win_row(quad(ip), quad(mask), "On-link", iface, rng.randint(1, 400), eol))
+        onlink.append(expected_net(ip, w))
+        if w != 32 and not quad(ip).startswith(WIN_SKIP):
+            exp.append(expected_net(ip, w))
+    while junk_rate and rng.random() < junk_rate:
+        out.append(junk_line(rng))
+        has_junk = True
+    if rng.random() < 0.8:
+        out += [ln.replace(b"\r\n", eol) for ln in WIN_TAIL]
+        out.append(rng.choice([b"  None" + eol, b"  Network Address          Netmask  Gateway Address  Metric" + eol
+                               + b"          0.0.0.0          0.0.0.0      192.168.1.1  Default " + eol]))
+    return b"".join(out), exp, has_junk, onlink
+
+
+def win_genmask_table(rows):
+    """`route PRINT -4` On-link rows for (dest, netmask) pairs, netmask any 32-bit value"""
+    return b"".join(WIN_HEAD) + b"".join(win_row(quad(d), quad(m), "On-link", "10.0.0.1", 281) for d, m in rows)
+
+
+def in_order(got, superset):
+    it = iter(superset)
+    return all(any(g == e for e in it) for g in got)
+
 
 def sized_table(rng, target):
     """iproute2 table whose ROUTES payload is exactly `target` bytes (no filtered entries)"""
@@ -854,7 +920,29 @@ def correspondence(ctx):
                       {"kind": "genmask-delivery", "tool": "netstat", "rows": [[d, m] for d, m in one],
                        "line": genmask_table(one).split(b"\n")[2].decode(), "reason": reason, "address_not_routed": witness})
 
-    # ---- C: single lines through _route_iproute / _route_netstat (as found == repaired at this level)
+    # the same netmask values in `route PRINT -4` On-link rows (Windows): every advertised network is canonical and inside its row
+    def win_ok(d, m):
+        return m != 0xffffffff and not quad(d).startswith(WIN_SKIP)
+    wrows_all = [((d | 0x80000000) if not win_ok(d, m) and m != 0xffffffff else d, m) for d, m in rows_all]
+    wrows_all = [(d, m) for d, m in wrows_all if win_ok(d, m)]
+    for k in range(0, len(wrows_all), 197):
+        rows = wrows_all[k:k + 197]
+        text = win_genmask_table(rows)
+        im = impl_lr("win", text)
+        ctx.case(("wingmtab", text), nontrivial=True,
+                 sample={"kind": "route PRINT table, arbitrary netmasks", "routes": len(rows), "result": im[:60]} if k == 0 else None)
+        ctx.count("genmask_tables_windows")
+        mo = split_both(ctx.run_driver(["LR win %s" % hx(text)])[0])[0]
+        if im != mo:
+            ctx.disagree("_list_routes (route PRINT, arbitrary netmasks)", {"text_hex": hx(text)[:2000]}, im[:400], mo[:400])
+        for reason, witness, idx in genmask_table_failures(im, rows):
+            one = [rows[idx]] if idx is not None else rows
+            ctx.violation("advertised network is not a network of the printed route (route PRINT Netmask): it contains addresses the "
+                          "route does not match, or is not canonical",
+                          {"kind": "genmask-table", "tool": "win", "rows": [[d, m] for d, m in one],
+                           "line": win_genmask_table(one).split(b"\r\n")[len(WIN_HEAD)].decode(), "reason": reason, "address_not_routed": witness})
+
+    # ---- C: single lines through _route_iproute / _route_netstat / _route_windows (as found == repaired at this level)
     lines_txt = []
     for tk in JUNK_TOKENS + toks[:60]:
         for suffix in ("", " dev eth0", " gw 255.255.0.0 U", " gw 300.0.0.0", " gw 0xff"):
@@ -864,13 +952,29 @@ def correspondence(ctx):
     lines_txt += ["1.2.3.4/-%d" % k for k in (1, 31, 32, 33, 1074, 1075, 2000)]
     big = 2 ** 1024 - 2 ** 970
     lines_txt += ["1.2.3.4/-%d x" % big, "1.2.3.4/-%d x" % (big - 1), "1.2.3.4/-%d" % (big * 10)]
+    # `route PRINT -4` shaped lines: every junk token as destination x netmask column, On-link spelt with other blanks, missing columns
+    win_masks = ["255.255.255.0", "255.255.255.255", "0.0.0.0", "255.0.255.0", "x", "24", "255.255", "300.0.0.0", "0377.0.0.0", "default", "255.255.255.255\n"]
+    for tk in JUNK_TOKENS + toks[:60] + ["127.0.0.0", "127", "0.1.2.3", "224.0.0.0", "224", "169.254.0.0", "169.254", "169.25.4.0", "1127.0.0.0", "10.0.0.0"]:
+        mk = rng.choice(win_masks)
+        lines_txt.append("%17s %16s %16s %16s %6d\r\n" % (tk, mk, "On-link", "10.0.0.1", 281))
+        lines_txt.append("%s %s On-link" % (tk, mk))
+    for mk in win_masks:
+        lines_txt.append("   10.1.2.3   %s   On-link   10.0.0.1   5\r\n" % mk)
+    lines_txt += [" On-link ", "On-link", "  On-link  ", "a On-link ", " On-link b", "\x1cOn-link\x1c", "x\x1c On-link \x1c", "1.2.3.4\x1c255.0.0.0 On-link x",
+                  "1.2.3.4\t255.0.0.0\tOn-link\tx", "1.2.3.4 255.0.0.0  On-link  x", "1.2.3.4 255.0.0.0 on-link x", "1.2.3.4 On-link 255.0.0.0 x",
+                  "On-link 1.2.3.4 255.0.0.0 x", " On-link 1.2.3.4 255.0.0.0 x", "1.2.3.4 255.0.0.0 x On-link", "1.2.3.4 255.0.0.0 x On-link ",
+                  "1.2.3.4 255.0.0.0 On-link On-link ", "1.2.3.4  On-link ", "10.0.0.0 255.0.0.0 10.0.0.1 10.0.0.2 25", "\x0c On-link \x0c"]
+    for ln in list(lines_txt[:400]):
+        if rng.random() < 0.15:
+            lines_txt.append(ln.rstrip("\n") + " On-link " + rng.choice(["", "x", ln]))
     ascii_lines = [ln for ln in lines_txt if all(ord(c) < 128 for c in ln)]
-    out = ctx.run_driver(["IPR " + hx(ln.encode()) for ln in ascii_lines] + ["NST " + hx(ln.encode()) for ln in ascii_lines])
+    out = ctx.run_driver(["IPR " + hx(ln.encode()) for ln in ascii_lines] + ["NST " + hx(ln.encode()) for ln in ascii_lines]
+                         + ["WIN " + hx(ln.encode()) for ln in ascii_lines])
     na = len(ascii_lines)
     for i, ln in enumerate(ascii_lines):
-        a, b_ = impl_extract("_route_iproute", ln), impl_extract("_route_netstat", ln)
-        ctx.case(("line", ln), nontrivial=(a != "NONE" or b_ != "NONE"))
-        for what, im, mo in (("_route_iproute", a, out[i]), ("_route_netstat", b_, out[na + i])):
+        a, b_, c_ = impl_extract("_route_iproute", ln), impl_extract("_route_netstat", ln), impl_extract("_route_windows", ln)
+        ctx.case(("line", ln), nontrivial=(a != "NONE" or b_ != "NONE" or c_ != "NONE"))
+        for what, im, mo in (("_route_iproute", a, out[i]), ("_route_netstat", b_, out[na + i]), ("_route_windows", c_, out[2 * na + i])):
             ctx.count("line_%s_%s" % (what, im.split()[0] if not im.startswith("CRASH") else "raises_" + im.split()[1]))
             if im != mo:
                 ctx.disagree(what, repr(ln)[:300], im[:300], mo[:300])
@@ -878,10 +982,12 @@ def correspondence(ctx):
     # ---- D: whole tables through _list_routes; oracle = ipaddress on the generator's intent
     f7_seen = {}
 
-    def table_case(tool, fmt, text, exp, has_junk, desc):
+    def table_case(tool, fmt, text, exp, has_junk, desc, superset=None, rv=0):
         o = ctx.run_driver(["LR %s %s" % (tool, hx(text))])[0]
         rep, asf = split_both(o)
-        im = impl_lr(tool, text)
+        im = impl_lr(tool, text, rv)
+        if rv:
+            ctx.count("table_tool_exit_status_nonzero")
         ctx.case(desc, nontrivial=bool(exp) or has_junk,
                  sample={"kind": "_list_routes", "format": fmt, "routes": len(exp), "bytes": len(text), "junk": has_junk,
                          "head": text[:80].decode("latin-1"), "result": im[:80]} if rng.random() < 0.02 else None)
@@ -901,11 +1007,25 @@ def correspondence(ctx):
             return im
         got = [tuple(x.rsplit("/", 1)) for x in im[3:].split(",")] if len(im) > 3 else []
         got = [(a, int(b)) for a, b in got]
-        if not has_junk and got != exp:
+        if superset is not None:
+            # Windows: which On-link rows are advertised is the model's business; each advertised network must be the
+            # canonical network of a printed On-link row, in the order printed
+            if not has_junk and not in_order(got, superset):
+                bad = next((g for g in got if g not in superset), got[0] if got else None)
+                ctx.violation("advertised network is not the canonical network of a printed On-link route (route PRINT)",
+                              {"kind": "win-table", "tool": tool, "format": fmt, "text_hex": hx(text) if len(text) < 6000 else hx(text[:6000]),
+                               "got_not_printed": list(bad) if bad else None, "printed_onlink": [list(e) for e in superset][:40]})
+            if not has_junk and not in_order(exp, got):
+                miss = next((e for e in exp if e not in got), exp[0] if exp else None)
+                ctx.violation("a printed On-link route (no host route, not 127./0./224./169.254.) is not advertised (route PRINT)",
+                              {"kind": "win-table", "tool": tool, "format": fmt, "text_hex": hx(text) if len(text) < 6000 else hx(text[:6000]),
+                               "missing": list(miss) if miss else None, "printed_onlink": [list(e) for e in superset][:40],
+                               "must_advertise": [list(e) for e in exp][:40]})
+        elif not has_junk and got != exp:
             k = next((i for i in range(min(len(got), len(exp))) if got[i] != exp[i]), min(len(got), len(exp)))
             ctx.violation("advertised network is not the canonical network of the printed route",
                           {"tool": tool, "format": fmt, "text_hex": hx(text) if len(text) < 4000 else hx(text[:4000]),
-                           "index": k, "got": got[k:k + 1], "want": exp[k:k + 1]})
+                           "index": k, "got": got[k:k + 1], "want": exp[k:k + 1], "tool_exit_status": rv})
         if has_junk:
             # junk lines may legitimately parse (random text); the well-formed routes must still appear in order
             it = iter(got)
@@ -924,7 +1044,13 @@ def correspondence(ctx):
         ctx.count("table_%s" % fmt)
         ctx.count("table_with_junk" if hj else "table_clean")
         ctx.count("table_routes", len(exp))
-        table_case(tool, fmt, text, exp, hj, ("tab", fmt, text))
+        table_case(tool, fmt, text, exp, hj, ("tab", fmt, text), rv=rng.choice([0, 0, 0, 1, 2, 255]))
+    for k in range(30 if quick else 4000):
+        text, exp, hj, onl = gen_windows_table(rng, rng.choice([0, 1, 2, 3, 10, 50, rng.randint(0, 200)]), junk_rate=rng.choice([0.0, 0.0, 0.15, 0.4]))
+        ctx.count("table_windows")
+        ctx.count("table_with_junk" if hj else "table_clean")
+        ctx.count("table_routes", len(exp))
+        table_case("win", "windows", text, exp, hj, ("tab", "windows", text), superset=onl, rv=rng.choice([0, 0, 0, 1]))
     # exhaustive: every width x every abbreviated form x host bits (small scope)
     ex_lines_ip, ex_exp_ip, ex_lines_bsd, ex_exp_bsd, ex_lines_nl, ex_exp_nl = [], [], [], [], [], []
     base = [10, 77, 201, 254]
@@ -951,7 +1077,39 @@ def correspondence(ctx):
     table_case("ip", "ip", "".join(ex_lines_ip).encode(), ex_exp_ip, False, "exhaustive-ip")
     table_case("netstat", "netstat-linux", "".join(ex_lines_nl).encode(), ex_exp_nl, False, "exhaustive-netstat-linux")
     table_case("netstat", "netstat-bsd", "".join(ex_lines_bsd).encode(), ex_exp_bsd, False, "exhaustive-netstat-bsd")
-    ctx.extra["exhaustive_width_x_abbreviation"] = len(ex_lines_ip) + len(ex_lines_nl) + len(ex_lines_bsd)
+    ex_rows_win = [(quad((base[0] << 24) | (base[1] << 16) | (base[2] << 8) | base[3]), w) for w in range(33)]
+    ex_text_win = b"".join(WIN_HEAD) + b"".join(win_row(d, quad((0xffffffff << (32 - w)) & 0xffffffff), "On-link", "10.0.0.1", 281) for d, w in ex_rows_win)
+    ex_all_win = [expected_net(int(ipaddress.IPv4Address(d)), w) for d, w in ex_rows_win]
+    got_win = table_case("win", "windows", ex_text_win, ex_all_win[:32], False, "exhaustive-windows", superset=ex_all_win)
+    if got_win != "OK " + ",".join("%s/%d" % e for e in ex_all_win[:32]):
+        ctx.disagree("route PRINT: one On-link row per prefix length 0..32", "exhaustive-windows", got_win[:300], "the 32 networks /0../31 (the /32 host route is not advertised)")
+    ctx.extra["exhaustive_width_x_abbreviation"] = len(ex_lines_ip) + len(ex_lines_nl) + len(ex_lines_bsd) + len(ex_rows_win)
+    # list_routes(): the tool choice.  The machine has exactly one routing tool (or none); the command started must be that tool's
+    for tool, fmt in (("ip", "ip"), ("netstat", "netstat-linux"), ("win", "windows"), ("none", "ip")):
+        for rv in (0, 1):
+            if fmt == "windows":
+                text, exp, _hj, onl = gen_windows_table(rng, 12, allow_special=False)
+            else:
+                text, exp, _hj = gen_table(rng, fmt, 12, allow_special=False)
+            res, argvs = impl_list_routes(tool, text, rv)
+            ctx.case(("list_routes", tool, rv, text), nontrivial=True)
+            ctx.count("list_routes_tool_%s" % tool)
+            want_argv = [TOOLS[tool][0]] if tool != "none" else []
+            if argvs != want_argv:
+                ctx.disagree("list_routes: command started for the routing table", {"only_tool": tool}, argvs, want_argv)
+            mo = split_both(ctx.run_driver(["LR %s %s" % (tool, hx(text))])[0])[0]
+            mo_f = "OK " + ",".join(x for x in mo[3:].split(",") if x and kept(x)) if mo.startswith("OK") else mo
+            if res != mo_f:
+                ctx.disagree("list_routes (tool choice + filter)", {"only_tool": tool, "text_hex": hx(text)[:2000]}, res[:300], mo_f[:300])
+            wantk = [e for e in exp if kept(e[0])] if tool != "none" else []
+            if res != "OK " + ",".join("%s/%d" % e for e in wantk):
+                if res.startswith("CRASH"):
+                    ctx.violation("route discovery raised on a well-formed table", {"kind": "list_routes", "only_tool": tool, "tool_exit_status": rv,
+                                                                                    "text_hex": hx(text), "exception": res.split()[1]})
+                elif tool in ("ip", "netstat"):
+                    ctx.violation("advertised networks are not the canonical networks of the printed routes (list_routes)",
+                                  {"kind": "list_routes", "only_tool": tool, "tool_exit_status": rv, "text_hex": hx(text), "got": res[:300],
+                                   "want": [list(e) for e in wantk]})
 
     # F7 witnesses (the Coq *_refuted witnesses) replayed on the real code
     for tool, wl in F7_WITNESSES:
@@ -968,11 +1126,13 @@ def correspondence(ctx):
                                 "exception_classes_seen": sorted(k.split()[1] for k in f7_seen)})
 
     # ---- E: server.main -> ROUTES frame -> client._main (delivery), incl. sizes around 65535 and big tables
-    def delivery_case(tool, fmt, text, exp, desc, check_client=True):
+    def delivery_case(tool, fmt, text, exp, desc, check_client=True, rv=0, superset=None):
         expk = [e for e in exp if kept(e[0])]
         o = ctx.run_driver(["ADV %s %s" % (tool, hx(text))])[0]
         rep, asf = split_both(o)
-        st, payload, wire = impl_server(tool, text)
+        st, payload, wire = impl_server(tool, text, rv)
+        if rv:
+            ctx.count("delivery_tool_exit_status_nonzero")
         im = "OK " + hx(payload) if st == "OK" else "CRASH " + payload
         plen = len(payload) if st == "OK" else sum(len("2,%s,%d\n" % e) for e in expk)
         ctx.case(desc, nontrivial=True, sample={"kind": "delivery", "format": fmt, "routes": len(expk), "payload_bytes": plen, "server": im[:40]}
@@ -981,7 +1141,7 @@ def correspondence(ctx):
         if im != rep and not (im == asf and im.startswith("CRASH")):
             ctx.disagree("server.main ROUTES payload", {"tool": tool, "text_hex": hx(text)[:2000]}, im[:300], o[:600])
         if st != "OK":
-            rp = {"kind": "delivery", "tool": tool, "n_routes": len(expk), "payload_bytes": plen, "exception": payload,
+            rp = {"kind": "delivery", "tool": tool, "n_routes": len(expk), "payload_bytes": plen, "exception": payload, "tool_exit_status": rv,
                   "text_hex": hx(text) if len(text) < 3000 else None, "regen": desc if isinstance(desc, (list, tuple)) else None}
             if payload == "AssertionError" and plen > 65535:
                 rp["finding_id"] = "F6"
@@ -994,10 +1154,23 @@ def correspondence(ctx):
                 ctx.violation("server dies while advertising routes", rp)
             return
         want_payload = "".join("2,%s,%d\n" % e for e in expk).encode()
-        if payload != want_payload:
+        if superset is not None:
+            ents = [tuple(ln.split(b",")) for ln in payload.split(b"\n") if ln]
+            gotn = [(e[1].decode("latin-1"), int(e[2])) for e in ents if len(e) == 3 and e[0] == b"2" and e[2].isdigit()]
+            if len(gotn) != len(ents) or not in_order(gotn, superset):
+                ctx.violation("ROUTES payload advertises something that is not the canonical network of a printed On-link route (route PRINT)",
+                              {"kind": "delivery", "tool": tool, "text_hex": hx(text)[:6000], "got": payload[:200].decode("latin-1"),
+                               "want": want_payload[:200].decode("latin-1"), "tool_exit_status": rv, "in_order_of": [list(e) for e in superset][:60]})
+            elif not in_order(expk, gotn):
+                ctx.violation("ROUTES payload lacks a printed On-link route (no host route, not 127./0./224./169.254.) (route PRINT)",
+                              {"kind": "delivery", "tool": tool, "text_hex": hx(text)[:6000], "got": payload[:200].decode("latin-1"),
+                               "want": want_payload[:200].decode("latin-1"), "tool_exit_status": rv, "in_order_of": [list(e) for e in superset][:60],
+                               "must_advertise": [list(e) for e in expk][:60]})
+            expk = gotn      # what the client must then add
+        elif payload != want_payload:
             ctx.violation("ROUTES payload differs from the canonical networks of the table",
                           {"kind": "delivery", "tool": tool, "text_hex": hx(text)[:6000], "got": payload[:200].decode("latin-1"),
-                           "want": want_payload[:200].decode("latin-1")})
+                           "want": want_payload[:200].decode("latin-1"), "tool_exit_status": rv})
         if not check_client:
             return
         for (auto, v4, v6) in ((True, True, False),) + (((True, True, True), (False, True, False), (True, False, True)) if len(expk) < 50 else ()):
@@ -1018,7 +1191,16 @@ def correspondence(ctx):
         tool, fmt = fmts[k % 3]
         n = rng.choice([0, 1, 2, 5, 30, rng.randint(0, 400)])
         text, exp, hj = gen_table(rng, fmt, n, junk_rate=0.0)
-        delivery_case(tool, fmt, text, exp, ("deliv", fmt, text))
+        delivery_case(tool, fmt, text, exp, ("deliv", fmt, text), rv=rng.choice([0, 0, 1, 127]))
+    for k in range(8 if quick else 200):
+        n = rng.choice([0, 1, 2, 5, 30, rng.randint(0, 400)])
+        text, exp, hj, onl = gen_windows_table(rng, n)
+        ctx.count("delivery_windows")
+        delivery_case("win", "windows", text, exp, ("deliv", "windows", text), rv=rng.choice([0, 0, 1]), superset=onl)
+    for rv in (0, 1):
+        # a machine with neither `ip` nor `netstat`: the (empty) advertisement is still delivered and the firewall started
+        ctx.count("delivery_no_routing_tool")
+        delivery_case("none", "none", gen_table(rng, "ip", 5)[0], [], ("deliv", "none", rv), rv=rv)
     for target in ([65535, 65536] if quick else [65533, 65534, 65535, 65536, 65537, 65600]):
         st = sized_table(rng, target)
         if st is None:
@@ -1097,18 +1279,49 @@ def replay(ctx, rp):
         return got.startswith("CRASH") or have != [list(x) for x in r.get("want", [])]
     if r.get("kind") == "delivery" and "want" in r and r.get("text_hex"):
         text = bytes.fromhex(r["text_hex"])
-        st, payload, wire = impl_server(r.get("tool", "ip"), text)
+        st, payload, wire = impl_server(r.get("tool", "ip"), text, r.get("tool_exit_status", 0))
         if st != "OK":
             print("server.main ->", st, payload)
             return True
+        if "in_order_of" in r:
+            ents = [tuple(ln.split(b",")) for ln in payload.split(b"\n") if ln]
+            gotn = [(e[1].decode("latin-1"), int(e[2])) for e in ents if len(e) == 3 and e[0] == b"2" and e[2].isdigit()]
+            ok = (len(gotn) == len(ents) and in_order(gotn, [tuple(e) for e in r["in_order_of"]])
+                  and in_order([tuple(e) for e in r.get("must_advertise", [])], gotn))
+            print("payload %r; every entry the canonical network of a printed On-link row, in order: %s" % (payload[:200], ok))
+            return not ok
         if "auto_nets" in r:
             got, ordered = impl_client(r["auto_nets"], r["v4"], r["v6"], wire)
             print("client outcome %s (want %s)" % (got[:200], r["want"][:200]))
             return got[:300] != r["want"] or not ordered
         print("payload %r (want %r)" % (payload[:200], r["want"]))
         return payload[:200].decode("latin-1") != r["want"]
+    if r.get("kind") == "win-table":
+        text = bytes.fromhex(r["text_hex"])
+        got = impl_lr("win", text)
+        items = [x.rsplit("/", 1) for x in got[3:].split(",")] if got.startswith("OK ") and len(got) > 3 else []
+        sup = [tuple(e) for e in r["printed_onlink"]]
+        gotl = [(a, int(b)) for a, b in items]
+        ok = got.startswith("OK") and in_order(gotl, sup) and in_order([tuple(e) for e in r.get("must_advertise", [])], gotl)
+        print("_list_routes(route PRINT) -> %s; each the canonical network of a printed On-link row, in order, none missing: %s" % (got[:200], ok))
+        return not ok
+    if r.get("kind") == "list_routes":
+        text = bytes.fromhex(r["text_hex"])
+        res, argvs = impl_list_routes(r["only_tool"], text, r.get("tool_exit_status", 0))
+        print("list_routes() with only %r installed (exit status %r): commands %r -> %s" % (r["only_tool"], r.get("tool_exit_status", 0), argvs, res[:200]))
+        if res.startswith("CRASH"):
+            return True
+        return "want" in r and res != "OK " + ",".join("%s/%d" % tuple(e) for e in r["want"])
     if r.get("kind") in ("genmask-table", "genmask-delivery"):
         rows = [(int(d), int(m)) for d, m in r["rows"]]
+        if r.get("tool") == "win":
+            text = win_genmask_table(rows)
+            res = impl_lr("win", text)
+            fails = genmask_table_failures(res, rows)
+            print("route PRINT table:\n%s-> %s" % (text.decode(), res[:300]))
+            for reason, witness, _k in fails[:5]:
+                print("property failure:", reason)
+            return bool(fails)
         text = genmask_table(rows)
         if r["kind"] == "genmask-table":
             res = impl_lr(r.get("tool", "netstat"), text)
@@ -1138,7 +1351,7 @@ def replay(ctx, rp):
         else:
             n = r.get("n_routes", 5000)
             text = "".join("10.%d.%d.0/24 dev eth0 scope link\n" % (i // 256, i % 256) for i in range(n)).encode()
-        st, payload, _w = impl_server(r.get("tool", "ip"), text)
+        st, payload, _w = impl_server(r.get("tool", "ip"), text, r.get("tool_exit_status", 0))
         print("server.main with %d bytes of tool output -> %s %s" % (len(text), st, payload if st != "OK" else "payload %d bytes" % len(payload)))
         return st != "OK"
     if "token" in r:
